@@ -120,6 +120,8 @@ DISCHARGES = [
      'no_std spelling of the same debug_assert!'),
     ('helping::Slots::help', 'begin_panic', 'debug_assert', {'call:eq'}, 'TXN-CLOSED',
      'a writer finds GEN_TAG in its own control only inside its own transaction, and no call happens inside a transaction'),
+    ('helping::Slots::help', 'assert_failed', 'debug_assert_ne', {'arg', 'op:Eq'}, 'TXN-CLOSED',
+     'the same "refusing to help myself" assertion spelled as an inequality of the two slot addresses (`self as *const _ != who as *const _`)'),
     ('helping::Slots::help', 'assert_failed', 'debug_assert_eq', {'atomic:control.load'}, 'TXN-CLOSED',
      'own control is IDLE outside a transaction'),
     ('helping::Slots::get_debt', 'assert_failed', 'debug_assert_eq', {'atomic:control.swap'}, 'TXN-CLOSED',
@@ -211,13 +213,17 @@ def rule_panic_inv(fx, col):
             for (fn_sfx, what_sub, mac, need, rule, reason) in DISCHARGES:
                 w = what if kind == 'call' else ('assert:' + what)
                 if need and what_sub in w and mac == macro and need <= toks:
-                    cands.append((rule, reason + ' (same assertion as in %s)' % fn_sfx))
+                    cands.append((rule, reason + ' (same assertion as in %s)' % fn_sfx, fn_sfx))
                 # `debug_assert!(a == b)` for `debug_assert_eq!(a, b)` (the comparison moved into a predicate helper)
-                elif need and what_sub == 'assert_failed' and mac in ('debug_assert_eq', 'assert_eq') and macro == mac[:-3] and kind == 'call' \
-                        and what.split('::')[-1] in ('panic', 'panic_fmt') and (need | {'op:Eq'}) <= toks:
-                    cands.append((rule, reason + ' (same assertion as in %s, spelled assert!(a == b))' % fn_sfx))
-            if len({c[0] for c in cands}) == 1:
-                match = cands[0]
+                elif need and what_sub == 'assert_failed' and mac in ('debug_assert_eq', 'assert_eq') and macro in (mac[:-3], 'panic', 'assert', 'debug_assert') \
+                        and kind == 'call' and what.split('::')[-1] in ('panic', 'panic_fmt', 'begin_panic') and (need | {'op:Eq'}) <= toks:
+                    cands.append((rule, reason + ' (same assertion as in %s, spelled assert!(a == b))' % fn_sfx, fn_sfx))
+            # the same function first (two functions may assert about the same location for different reasons)
+            here = [c for c in cands if len(c) > 2 and c[2] in fname] or [c for c in cands if len(c) == 2]
+            if len({c[0] for c in here}) == 1:
+                match = here[0][:2]
+            elif len({c[0] for c in cands}) == 1:
+                match = cands[0][:2]
         n = per_fn.get((fname, kind, what, macro), 0)
         per_fn[(fname, kind, what, macro)] = n + 1
         key = '%s|%s %s%s|%s' % (fname, kind, what.split('::')[-1], (' in ' + macro + '!') if macro else '', ','.join(sorted(toks)) or '-')
